@@ -63,6 +63,7 @@ def check(prog: Program, run: Run) -> None:
     _lookup(prog, run)
     _defaults(prog, run)
     _subparam_order(prog, run)
+    _subvalue_order(prog, run)
     _accessors(prog, run)
     # (HierarchyElement.protocols reads getattr(self, "parent_refs", []) too and thereby skips
     # the parents of a PROTOCOL layer; no property ranges over .protocols, so only the helper
@@ -470,6 +471,37 @@ def _subparam_order(prog: Program, run: Run) -> None:
                "order), both tags accepted by the same test", f.loc)
     else:
         raise AnalysisError("ComplexComparam.from_et: sub-parameter collection not recognised")
+
+
+def _subvalue_order(prog: Program, run: Run) -> None:
+    """... and the VALUE side likewise: create_complex_value_from_et() keeps SIMPLE-VALUE and
+    nested COMPLEX-VALUE children in document order (one pass over the children), because
+    get_subvalue() pairs the values with the sub-parameters by position."""
+    R = "C15.R3"
+    f = prog.func("odxtools.complexcomparam:create_complex_value_from_et")
+    C = "create_complex_value_from_et"
+    elem = f.params()[0]
+    per_tag = [x for x in walk_no_nested(f.node) if isinstance(x, ast.Call) and isinstance(
+        x.func, ast.Attribute) and x.func.attr in ("iterfind", "findall", "iter", "find") and
+        x.args and isinstance(x.args[0], ast.Constant) and str(x.args[0].value).split("/")[-1] in (
+            "SIMPLE-VALUE", "COMPLEX-VALUE")]
+    one_pass = [x for x in ast.walk(f.node) if isinstance(x, (ast.For, ast.comprehension)) and
+                isinstance(x.iter, ast.Name) and x.iter.id == elem] + [
+        x for x in ast.walk(f.node) if isinstance(x, (ast.For, ast.comprehension)) and isinstance(
+            x.iter, ast.Call) and call_name(x.iter) in ("list", "iter") and x.iter.args and
+        ast.unparse(x.iter.args[0]) == elem]
+    if per_tag:
+        run.violation(R, C, "subvalues-per-tag",
+                      f"`{ast.unparse(per_tag[0])}` collects the sub-values tag by tag: a nested "
+                      "COMPLEX-VALUE that precedes a SIMPLE-VALUE moves behind it, so "
+                      "get_subvalue() pairs the values with the wrong sub-parameters",
+                      f"{f.module.rel}:{per_tag[0].lineno}")
+    elif len(one_pass) == 1:
+        run.ok(R, C, "sub-values are collected in one pass over the children (document order)",
+               f.loc)
+    else:
+        raise AnalysisError("create_complex_value_from_et: collection of the sub-values not "
+                            "recognised")
 
 
 def _accessors(prog: Program, run: Run) -> None:
